@@ -52,6 +52,20 @@ Theorem C02_ternary_assign_correct :
   run_fwd gen_optable libm lty code Exec m None = Ok (RFall m').
 Proof. exact ternary_assign_correct_gen. Qed.
 
+(* counting jumps `if/unless (--v) goto l`, `(--v != 0)`, `(--v > 0)`: the variable is decremented
+   (32-bit wrap) and the jump is taken exactly as the source says, for both keywords *)
+Theorem C02_count_jump_correct :
+  forall libm avail rty lty diff time mask k v op l jt s code s' m n,
+  (forall op t, sigil_of_unop op <> None -> avail (KUnOp op t) = false) ->
+  lower_count_jump avail rty lty time mask k v op l jt s = Ok (code, s') ->
+  label_ok l (g s) ->
+  eval_s gen_optable libm rty lty diff (te s) m (var_expr v) = Ok (VInt n) ->
+  run_fwd gen_optable libm lty code Exec m None =
+    Ok (if xorb (count_taken op (wrap32 (n - 1))) (is_unless k)
+        then RJump l jt (update m (v_id v) (VInt (wrap32 (n - 1))))
+        else RFall (update m (v_id v) (VInt (wrap32 (n - 1))))).
+Proof. exact count_jump_correct_gen. Qed.
+
 (* structure of all emitted code: generated labels carry the emitting call's gensym numbers, RegAlloc /
    RegFree are balanced (skipping over the code leaves memory unchanged), local typing only grows *)
 Theorem C02_lowered_code_shape :
@@ -72,7 +86,7 @@ Theorem C02_lowered_instrs_carry_stmt_time :
   Forall (at_time time mask) code.
 Proof. exact lower_times. Qed.
 
-(* The full property, for reference.  Not yet a theorem: counting jumps (`--v`), declarations, instruction
+(* The full property, for reference.  Not yet a theorem: declarations, instruction
    calls with complex arguments, difficulty switches inside expressions, ternaries nested inside
    arithmetic, the composition of the per-statement results over a whole body (jumps between statements,
    waits, the instruction log) and the composition with register allocation (Proofs/RegAllocSem.v,
